@@ -18,7 +18,8 @@ IMP = 'kernpy.core.importer.Importer.'
 class csv_reader:
     def requires(delimiter=None, quoting=None):
         # the call-site obligation of C02: cell text is taken literally only under exactly these options
-        return conj(delimiter == '\t', quoting == ('extconst', 'csv.QUOTE_NONE'))
+        import csv
+        return conj(delimiter == '\t', disj(quoting == ('extconst', 'csv.QUOTE_NONE'), quoting == csv.QUOTE_NONE))
 
     def model(args):
         return opaque('literal rows of', args[0])
@@ -184,7 +185,7 @@ class compute_spine_operator_token:
     def inputs(g):
         imp = mk_full_importer(g)
         col = g.int('column', 0)
-        row = g.seq('row', lambda e: e.str_sym('cell'))
+        row = g.seq('row', lambda e: e.str_sym('cell', ['*v', '*v', '*', '*^', '*-']))
         g.assume(col < len(row))
         return {'self': imp, 'column_index': col, 'column_content': g.choice('op', ['*-', '*^', '*+', '*v', '*x']), 'row': row,
                 '_next_before': imp._next_stage_parents.copy()}
@@ -209,6 +210,8 @@ class compute_spine_operator_token:
         if column_content == '*-':
             return nxt == next_before
         if column_content == '*^' or column_content == '*+':
+            if len(nxt) != len(next_before) + 2:
+                return False
             node = nxt[-1]
             return conj(len(nxt) == len(next_before) + 2, nxt[-2] is node, node.parent is parent, node.header_node is parent.header_node,
                         node.token.encoding == column_content, node.stage == self._tree_stage)
@@ -220,8 +223,36 @@ class compute_spine_operator_token:
             continues_join = conj(row[column_index - 1] == '*v', left.header_node.id == parent.header_node.id)
         if continues_join:
             return nxt == next_before
+        if len(nxt) != len(next_before) + 1:
+            return False
         node = nxt[-1]
         return conj(nxt[:-1] == next_before, node.parent is parent, node.header_node is parent.header_node, node.stage == self._tree_stage)
 
     def raises(self, column_index, column_content):
         return {'Exception': disj(column_index >= len(self._prev_stage_parents), column_content == '*x')}
+
+
+def temp_score_file():
+    import os
+    import tempfile
+    d = tempfile.mkdtemp(prefix='pyvc_')
+    p = os.path.join(d, 'score.krn')
+    with open(p, 'w', encoding='utf-8', newline='') as f:
+        f.write('**kern\t**text\n4c\t"quoted"\n4d\t"open\n*-\t*-\n')
+    return p
+
+
+@contract(IMP + 'import_file', props=['C02', 'C20'])
+class import_file:
+    """the file is opened for reading (utf-8, universal newlines off) and read with the same literal tab reader as import_string"""
+    def inputs(g):
+        return {'self': mk_importer(g), 'file_path': g.ext('path', temp_score_file)}
+
+    def post_runs_on_literal_rows(result, self):
+        return result is self._document
+
+    def post_reads_the_given_file(file_path):
+        from pyvc.ghost import ghost_events
+        opens = [e for e in ghost_events() if e[1] == 'open']
+        return conj(len(opens) == 1, opens[0][2][0] is file_path, opens[0][2][1] == 'r', opens[0][3].get('encoding') == 'utf-8',
+                    opens[0][3].get('newline') == '')
